@@ -716,3 +716,7 @@ fn is_tree_index_in_tree(i: usize, n: usize) -> bool {
 fn is_perfect(n: usize) -> bool {
     n == 1 || n.next_power_of_two() == n.wrapping_add(1)
 }
+
+#[cfg(all(test, feature = "verif"))]
+#[path = "/verif/harness/merkle/merkle_mc.rs"]
+mod verif_merkle;
